@@ -658,4 +658,155 @@ Proof.
   - split; [now apply enter_step|now apply start_from_enter].
 Qed.
 
+(* ---------- exit ---------- *)
+
+Lemma lvs_close_app' (t : T) : forall (a c : list (lv T)) o, lvs_close t (a ++ c) o = lvs_close t c (lvs_close t a o).
+Proof. induction a as [|v a IH]; intros c o; cbn [app lvs_close]; [reflexivity|apply IH]. Qed.
+
+Lemma tflatten_app (a c : list (titem T)) : tflatten (a ++ c) = tflatten a ++ tflatten c.
+Proof. apply flat_map_app. Qed.
+
+(* the leaves closed by closing the items of L in list order *)
+Lemma close_order_cons (t : T) (it : titem T) L o :
+  lvs_close t (rev (tflatten (rev (it :: L)))) o =
+  lvs_close t (rev (tflatten (rev L))) (lvs_close t (rev (tflat1 it)) o).
+Proof.
+  cbn [rev]. rewrite tflatten_app, rev_app_distr, lvs_close_app'.
+  unfold tflatten at 2. cbn [flat_map]. now rewrite app_nil_r.
+Qed.
+
+Lemma split_mark_ts (its : list (titem T)) : forall acc, split_mark (map t_deed its) acc = None.
+Proof.
+  induction its as [|it its IH]; intro acc; cbn [map split_mark]; [reflexivity|].
+  destruct it; cbn [t_deed lv_deed]; apply IH.
+Qed.
+
+Definition closel_at (f : nat) : Prop := forall (L : list (titem T)) s o,
+  oof (close_list tk f s (map t_deed L)) = false ->
+  ts_ok s L -> ts_wf (defs s) L -> NoDup (ts_ids L) -> out_ok vis s o ->
+  out_ok vis (close_list tk f s (map t_deed L)) (lvs_close (tyme s) (rev (tflatten (rev L))) o) /\
+  frame (ts_ids L) (ts_ids L) s (close_list tk f s (map t_deed L)).
+
+Definition gclose_at (f : nat) : Prop := forall s n npc (re : T) kids o,
+  oof (gen_close tk f s n) = false ->
+  ts_ok s [IGroup n npc re kids] -> ts_wf (defs s) [IGroup n npc re kids] ->
+  NoDup (n :: ts_ids kids) -> out_ok vis s o ->
+  out_ok vis (gen_close tk f s n) (lvs_close (tyme s) (rev (tflatten kids)) o) /\
+  frame (n :: ts_ids kids) (n :: ts_ids kids) s (gen_close tk f s n).
+
+Lemma gclose_from f : closel_at f -> gclose_at (S (S f)).
+Proof.
+  intros CL s n npc re kids o O G W ND OK.
+  cbn [all t_ok1 t_wf1] in G, W. destruct G as [(Gn & Dq & K) _]. destruct W as [(NV & [kids0 D] & WK) _].
+  pose proof ND as ND'. apply NoDup_cons_iff in ND' as [Nn NDk].
+  rewrite gen_close_S, Gn, D in *. cbv zeta in *.
+  set (s1 := emit (set_gen s n (GRun npc)) Cease n) in *.
+  rewrite oof_set_gen, oof_emit in O.
+  rewrite close_own_S in *. cbv zeta in *.
+  change (get_sched s1 n) with (get_sched s n) in *. rewrite Dq in *.
+  unfold unrotate in *. rewrite split_mark_ts in *. rewrite <- map_rev in *.
+  set (s2 := set_deeds s1 n []) in *.
+  assert (F2 : frame [n] [n] s s2).
+  { unfold s2, s1. apply frame_deeds; [now left|]. apply frame_emit. apply frame_gen; [now left|]. apply frame_refl. }
+  assert (OK2 : out_ok vis s2 o).
+  { unfold s2, s1. apply ok_deeds. apply ok_emit_invis; [exact NV|]. now apply ok_gen. }
+  assert (K2 : ts_ok s2 (rev kids)).
+  { apply ts_ok_rev. eapply ts_ok_frame; [exact F2| |exact K].
+    intros x Hx. split; intros [Heq|[]]; subst x; contradiction. }
+  assert (ND2 : NoDup (ts_ids (rev kids))) by (eapply Permutation_NoDup; [apply ts_ids_rev|exact NDk]).
+  destruct (CL (rev kids) s2 o O K2 (ts_wf_rev _ _ WK) ND2 OK2) as [OK' F'].
+  change (tyme s2) with (tyme s) in OK'. rewrite rev_involutive in OK'.
+  split.
+  - apply ok_gen. apply ok_emit_invis; [exact NV|exact OK'].
+  - apply frame_gen; [now left|]. apply frame_emit.
+    eapply frame_trans.
+    + eapply frame_weaken; [| |exact F2]; intros x [->|[]]; now left.
+    + eapply frame_weaken; [| |exact F']; intros x Hx; right;
+        (eapply Permutation_in; [symmetry; apply ts_ids_rev|exact Hx]).
+Qed.
+
+Lemma closel_step f : closel_at f -> gclose_at f -> closel_at (S f).
+Proof.
+  intros CL GC L s o O G W ND OK.
+  destruct L as [|it L].
+  - cbn [map] in *. rewrite close_list_S. split; [exact OK|apply frame_refl].
+  - rewrite close_order_cons. cbn [map] in *. destruct it as [v|n npc re kids].
+    + cbn [all t_ok1 t_wf1 t_deed] in *. destruct G as [Gv GU]. destruct W as [[[Dv Pv] Vv] WU].
+      rewrite ts_ids_leaf in *. apply NoDup_cons_iff in ND as [Nv NDU].
+      change (lv_deed v :: map t_deed L) with (DDeed (lv_id v) (v_re v) :: map t_deed L) in *.
+      rewrite close_list_deed in *.
+      pose proof (oof_close_list _ _ _ _ O) as O1.
+      rewrite (leaf_close _ _ _ _ _ _ _ O1 Gv Dv) in *.
+      set (s1 := set_gen (emit (emit (set_gen s (lv_id v) (GRun (v_pc v))) Cease (lv_id v)) Exit (lv_id v)) (lv_id v) GDone) in *.
+      assert (F1 : frame [lv_id v] [] s s1).
+      { unfold s1. apply frame_gen; [now left|]. do 2 apply frame_emit. apply frame_gen; [now left|]. apply frame_refl. }
+      assert (OK1 : out_ok vis s1 (lvs_close (tyme s) (rev (tflat1 (ILeaf v))) o)).
+      { unfold s1. cbn [tflat1 rev app lvs_close]. apply ok_gen.
+        apply (ok_emit_vis vis (emit (set_gen s (lv_id v) (GRun (v_pc v))) Cease (lv_id v)) _ Exit (lv_id v) Vv).
+        apply (ok_emit_vis vis (set_gen s (lv_id v) (GRun (v_pc v))) _ Cease (lv_id v) Vv). now apply ok_gen. }
+      assert (GU1 : ts_ok s1 L).
+      { eapply ts_ok_frame; [exact F1| |exact GU]. intros x Hx. split; [|intros []].
+        intros [Heq|[]]. subst x. contradiction. }
+      destruct (CL L s1 _ O GU1 WU NDU OK1) as [OK' F'].
+      split; [exact OK'|].
+      eapply frame_trans; [eapply frame_weaken; [| |exact F1]|eapply frame_weaken; [| |exact F']];
+        intros x Hx; cbn [In] in *; tauto.
+    + pose proof G as G0. pose proof W as W0.
+      cbn [all t_ok1 t_wf1 t_deed] in G, W. destruct G as [Gg GU]. destruct W as [Wg WU].
+      rewrite ts_ids_group in *.
+      change (n :: ts_ids kids ++ ts_ids L) with ((n :: ts_ids kids) ++ ts_ids L) in ND.
+      pose proof (NoDup_app_l _ _ ND) as NDn. pose proof (NoDup_app_r _ _ ND) as NDU.
+      pose proof (NoDup_app_disj _ _ ND) as Disj.
+      cbn [t_deed] in *. rewrite close_list_deed in *.
+      pose proof (oof_close_list _ _ _ _ O) as O1.
+      assert (G1 : ts_ok s [IGroup n npc re kids]) by (cbn [all t_ok1]; auto).
+      assert (W1 : ts_wf (defs s) [IGroup n npc re kids]) by (cbn [all t_wf1]; auto).
+      destruct (GC s n npc re kids o O1 G1 W1 NDn OK) as [OK1 F1].
+      set (s1 := gen_close tk f s n) in *.
+      assert (GU1 : ts_ok s1 L).
+      { eapply ts_ok_frame; [exact F1| |exact GU]. intros x Hx. split; intro Hin; exact (Disj x Hin Hx). }
+      assert (WU1 : ts_wf (defs s1) L) by (destruct F1 as (_ & -> & _); exact WU).
+      assert (T1 : tyme s1 = tyme s) by (destruct F1 as (-> & _); reflexivity).
+      destruct (CL L s1 _ O GU1 WU1 NDU OK1) as [OK' F']. rewrite T1 in OK'.
+      split; [exact OK'|].
+      eapply frame_trans; [eapply frame_weaken; [| |exact F1]|eapply frame_weaken; [| |exact F']];
+        intros x Hx; cbn [In] in *; rewrite ?in_app_iff in *; tauto.
+Qed.
+
+Lemma close_all : forall f, closel_at f /\ gclose_at f /\ gclose_at (S f).
+Proof.
+  induction f as [|f (CL & G0 & G1)].
+  - split; [|split].
+    + intros L s o O. rewrite close_list_O in O. discriminate.
+    + intros s n npc re kids o O. rewrite gen_close_O in O. discriminate.
+    + intros s n npc re kids o O G W. exfalso.
+      cbn [all t_ok1 t_wf1] in G, W. destruct G as [(Gn & _) _]. destruct W as [(_ & [kids0 D] & _) _].
+      rewrite gen_close_S, Gn, D in O. cbv zeta in O. rewrite close_own_O in O. discriminate.
+  - split; [now apply closel_step|]. split; [exact G1|now apply gclose_from].
+Qed.
+
+Lemma root_close_t f s (its : list (titem T)) o :
+  oof (close_own tk f s 0%N) = false ->
+  deeds (get_sched s 0%N) = map t_deed its ->
+  ts_ok s its -> ts_wf (defs s) its -> NoDup (0%N :: ts_ids its) -> out_ok vis s o ->
+  out_ok vis (close_own tk f s 0%N) (tclose (tyme s) its o) /\
+  tyme (close_own tk f s 0%N) = tyme s.
+Proof.
+  intros O Dq G W ND OK.
+  destruct f as [|f]; [rewrite close_own_O in O; discriminate|].
+  rewrite close_own_S in *. cbv zeta in *. rewrite Dq in *.
+  unfold unrotate in *. rewrite split_mark_ts in *. rewrite <- map_rev in *.
+  apply NoDup_cons_iff in ND as [N0 ND].
+  set (s1 := set_deeds s 0%N []) in *.
+  assert (F1 : frame [] [0%N] s s1) by (apply frame_deeds; [now left|apply frame_refl]).
+  assert (G1 : ts_ok s1 (rev its)).
+  { apply ts_ok_rev. eapply ts_ok_frame; [exact F1| |exact G]. intros x Hx. split; [intros []|].
+    intros [Heq|[]]. subst x. contradiction. }
+  assert (ND1 : NoDup (ts_ids (rev its))) by (eapply Permutation_NoDup; [apply ts_ids_rev|exact ND]).
+  destruct (close_all f) as (CL & _).
+  destruct (CL (rev its) s1 o O G1 (ts_wf_rev _ _ W) ND1 (ok_deeds _ _ _ _ _ OK)) as [OK' F'].
+  rewrite rev_involutive in OK'.
+  split; [exact OK'|]. destruct F' as (-> & _). reflexivity.
+Qed.
+
 End TRun.
